@@ -264,6 +264,15 @@ def coq_stage(v, pid):
         v.proof_broken = dict(files=["Properties/%s.v" % pid], first_error=out[-1500:])
         return False
     v.coverage["print_assumptions"] = res
+    if getattr(v, "tier", "quick") == "thorough":
+        # independent re-check of the compiled theory of this property and everything it depends on
+        rc, out, dt = sh("flock /var/tmp/qedverif/coqchk.lock timeout 3000 coqchk -silent -o -Q %s QV QV.Properties.%s" % (COQ, pid), cwd=COQ, timeout=3100)
+        tail = out[-1500:]
+        v.coverage["coqchk"] = dict(cmd="coqchk -silent -o -Q /verif/coq QV QV.Properties.%s" % pid, rc=rc, wall_s=round(dt, 1), report=tail)
+        if rc != 0 or "Axioms: <none>" not in re.sub(r"\s+", " ", out):
+            v.violation("gate:coqchk", "coqchk does not accept the compiled development of %s or reports axioms: %s" % (pid, tail[-400:]),
+                        dict(kind="gate", coqchk=tail), no_input=True)
+            return False
     notclosed = {t: b for t, b in res.items() if not b.startswith("Closed under the global context")}
     v.coverage["discharged"] = len(obligations)
     v.coverage["theorems"] = list(res.keys())
